@@ -426,6 +426,28 @@ impl IndexBlockCursor {
     }
 }
 
+/// Verification-only, compiled only with `--cfg grenad_verif`.
+#[cfg(grenad_verif)]
+impl<R> ReaderCursor<R> {
+    /// Read-only fingerprint of the cursor state: for every loaded index level the
+    /// (recorded offset, hash of the loaded block, in-block position), followed by the
+    /// data block (recorded offset reported as `u64::MAX`).
+    pub fn verif_fingerprint(&self) -> Vec<(u64, u64, Option<usize>)> {
+        let mut out = Vec::new();
+        if let Some(inner) = self.index_block_cursor.inner.as_ref() {
+            for (offset, cursor) in inner {
+                let (hash, pos) = cursor.verif_state();
+                out.push((*offset, hash, pos));
+            }
+        }
+        if let Some(cursor) = self.current_cursor.as_ref() {
+            let (hash, pos) = cursor.verif_state();
+            out.push((u64::MAX, hash, pos));
+        }
+        out
+    }
+}
+
 #[cfg(test)]
 mod tests {
     use std::convert::TryInto;
